@@ -3,6 +3,7 @@ package interpreter
 import (
 	"bufio"
 	"fmt"
+	"io"
 	"os"
 	"strings"
 	"time"
@@ -21,6 +22,10 @@ func (n NativeClockFn) Arity() int {
 func (n NativeClockFn) String() string {
 	return "<native fn>"
 }
+
+// stdinReader is shared by all calls of the native `input` function: a reader of
+// its own per call would lose whatever that reader had buffered beyond the line.
+var stdinReader = bufio.NewReader(os.Stdin)
 
 // NativeInputFn defines the native `input` function for the interpreter.
 type NativeInputFn struct{}
@@ -50,9 +55,9 @@ func (n NativeInputFn) Call(i *Interpreter, arguments []interface{}) (interface{
 	}
 
 	// Read the input from the user
-	reader := bufio.NewReader(os.Stdin)
-	input, err := reader.ReadString('\n')
-	if err != nil {
+	input, err := stdinReader.ReadString('\n')
+	if err != nil && (err != io.EOF || input == "") {
+		// a last line without a newline is still a line
 		return nil, fmt.Errorf("failed to read input: %v", err)
 	}
 
